@@ -26,14 +26,3 @@ impl<'a> BddPtr<'a> {
     pub fn clear_scratch(&self) { unimplemented!() }
 }
 
-// ---- A-varset-view: in unit wmc `VarSet` is an opaque stub with a set view (its `insert` is proved against the BitSet
-// stub in unit cnf); a fold only ever builds the singleton of the node's variable and hands it to the closure ----
-#[verifier::external_body]
-pub struct VarSet { b: std::collections::BTreeSet<usize> }
-impl VarSet {
-    pub uninterp spec fn view(&self) -> ISet<u64>;
-    #[verifier::external_body]
-    pub fn new() -> (r: VarSet) ensures r@ == ISet::<u64>::empty() { unimplemented!() }
-    #[verifier::external_body]
-    pub fn insert(&mut self, v: VarLabel) ensures final(self)@ == old(self)@.insert(v.0) { unimplemented!() }
-}
